@@ -167,6 +167,8 @@ pub struct Tracked<'a> {
     pub call: Option<CallObs>,
     /// value loaded by LW etc. can be compared with the shadow memory (before the step)
     pub mem_before_word: Option<u64>,
+    /// CALL: memory [0, $sp) BEFORE the step (the caller's stack the call must not touch)
+    pub pre_call_stack: Option<Vec<u8>>,
 }
 pub struct CallObs {
     pub call_struct: Vec<u8>,
@@ -190,6 +192,7 @@ pub fn track<'a>(t: &'a Trace, initial_stack: &[u8], mut f: impl FnMut(&Tracked<
         let fv = s.field_values();
         let (call_struct, asset) = if s.mnemonic == "CALL" { (sh.read(fv[0], Call::LEN), sh.read(fv[2], 32)) } else { (vec![], vec![]) };
         let mem_before_word = if s.mnemonic == "LW" { Some(sh.word(fv[1].wrapping_add(8 * s.imm as u64))) } else { None };
+        let pre_call_stack = if s.mnemonic == "CALL" { Some(sh.read(0, s.regs_before[R_SP].min(MEM) as usize)) } else { None };
         let before_len = stack_len;
         sh.apply(s);
         let call = if s.mnemonic == "CALL" && s.outcome == Outcome::Proceed && s.frames_after.len() == s.frames_before.len() + 1 {
@@ -198,7 +201,7 @@ pub fn track<'a>(t: &'a Trace, initial_stack: &[u8], mut f: impl FnMut(&Tracked<
             let fs = CallFrame::serialized_size() as u64;
             Some(CallObs { call_struct, asset, frame: sh.read(nfp, fs as usize), code_area: sh.read(nfp + fs, nssp.saturating_sub(nfp + fs).min(1 << 20) as usize) })
         } else { None };
-        let tr = Tracked { step: s, is_last, prev_hp, stack_len: before_len, changed, call, mem_before_word };
+        let tr = Tracked { step: s, is_last, prev_hp, stack_len: before_len, changed, call, mem_before_word, pre_call_stack };
         f(&tr, &sh);
         // stack.len() after the step: grows with $sp, truncated when the heap grows into it
         stack_len = stack_len.max(s.regs_after[R_SP]).min(s.regs_after[R_HP]);
@@ -258,10 +261,12 @@ pub struct TreeCfg {
     pub gas_limit: u64,
     /// grow stack / heap until they touch (expensive: 64 MiB buffers)
     pub touch: bool,
+    /// per mille of activations that make $sp unaligned (any residue mod 8) right before their CALL
+    pub misalign_per_mille: u64,
 }
 impl Default for TreeCfg {
     fn default() -> Self {
-        TreeCfg { n_contracts: 2, recursion: 0, hostile: Hostile::None, hostile_unit: 0, ldc: false, actions: 4, schedule: GasSchedule::Default, gas_limit: 5_000_000, touch: false }
+        TreeCfg { n_contracts: 2, recursion: 0, hostile: Hostile::None, hostile_unit: 0, ldc: false, actions: 4, schedule: GasSchedule::Default, gas_limit: 5_000_000, touch: false, misalign_per_mille: 700 }
     }
 }
 
@@ -554,6 +559,15 @@ impl<'a> TreeGen<'a> {
         }
         if hostile_here && hostile_before_call { emit_hostile(self, &mut out, note, heap); }
 
+        // make $sp take any residue mod 8 at the CALL: extend the stack by an odd amount and fill the
+        // bytes just below the new $sp with a non-zero pattern (a frame placed below $sp would clobber them)
+        if self.rng.chance(self.cfg.misalign_per_mille, 1000) {
+            let amt = *self.rng.pick(&[1u32, 2, 3, 4, 5, 6, 7, 8, 9, 10, 11, 12, 13, 14, 15, 16, 17, 1023, 4097, 1, 3, 5, 7, 2, 6]);
+            if self.rng.bool() { out.push(i(op::cfei(amt))); } else { out.push(i(op::movi(T0, amt))); out.push(i(op::cfe(T0))); }
+            out.push(i(op::not(T4, RegId::ZERO)));
+            if self.rng.bool() { let v = self.rng.below(1 << 18) as u32 | 0x101; out.push(i(op::movi(T3, v))); out.push(i(op::xor(T4, T4, T3))); }
+            for k in 1..=3u16 { out.push(i(op::subi(T0, RegId::SP, 8 * k))); out.push(i(op::sw(T0, T4, 0))); }
+        }
         // the call
         let callee: Option<usize> = if is_script { if n > 0 { Some(0) } else { None } } else if me + 1 < n { Some(me + 1) } else { None };
         let n_calls = if callee.is_some() && self.rng.chance(1, 5) { 2 } else { 1 };
@@ -597,7 +611,7 @@ impl<'a> TreeGen<'a> {
     fn emit_call(&mut self, out: &mut Vec<Asm>, callreg: u8, is_script: bool) {
         let ai = self.rng.below(self.n_assets as u64) as usize;
         // contracts hold balances of every asset only mostly: forward coins from the script mainly
-        let coins = if is_script { *self.rng.pick(&[0u32, 0, 1, 7, 30]) } else { *self.rng.pick(&[0u32, 0, 0, 1, 2]) };
+        let coins = if is_script { *self.rng.pick(&[0u32, 1, 7, 30, 30, 55]) } else { *self.rng.pick(&[0u32, 0, 0, 1, 2]) };
         out.push(i(op::movi(T1, coins)));
         let ao = self.layout.asset_off[ai];
         self.data(out, T2, ao);
